@@ -48,6 +48,16 @@ CHECKS['C17'] = dict(
     note='os.environ replaced by the symbolic launch environment; values are fixed tokens (no symbolic strings).',
     design='DESIGN.md section 2 C17')
 
+CHECKS['C08'] = dict(
+    technique='bounded symbolic execution (z3, own executor): inductive step over the cache invariant (cached subset, mutator, target symbolic)',
+    text='From every cache state reachable by real queries over the base document (symbolic subset of cached entries), one arbitrary '
+         'mutator with symbolic target/value is applied and every query is compared with a from-scratch resolution of raw(); the '
+         'returned dictionaries are scribbled over to check they are private copies. One step from an arbitrary invariant state covers '
+         'histories of any length for this document family; thorough adds a second round.',
+    note='base document family is concrete (names chosen adversarially: regex-special, prefix pair, same name in two stages); '
+         'reference = a fresh FlowIRConcrete of the same working tree.',
+    design='DESIGN.md section 2 C08')
+
 NOT_APPLICABLE = {
     'C07': 'round trip through the real file system, PyYAML (C) and Experiment construction: nothing on the path can be made symbolic; the technique would degenerate to example testing',
     'C15': 'quantifies over processes with different hash seeds / directory listing orders, which are not values inside one symbolic execution',
